@@ -81,6 +81,7 @@ def front_case(draw):
     cfg["param_byteorder"] = draw(st.sampled_from(["native", "native", "native", "swapped"]))
     cfg["reuse_buffers"] = False
     cfg["prior_calls_on_same_arrays"] = False
+    cfg["prior_run_override"] = None        # the injected fault is counted from the start of the call under test
     if cfg["front"] == "joint":
         # the joint front end documents a per-point array for the switching cost as well
         cfg["beta_form"] = draw(st.sampled_from(["scalar", "vector", "vector"]))
